@@ -327,6 +327,9 @@ def extract_fragment(text, frag, key):
             raise LostAnchor('%s: match #%d scrutinee is %r, expected %r' % (key, index, scrut, frag['expect_scrutinee']))
         new_scrut = frag.get('scrutinee') or scrut
         body = 'match %s %s' % (new_scrut, text[toks[k][2]:toks[c][3]])
+        if frag.get('tail'):
+            # the lifted match is a statement (it may `return` early); `tail` is the value the function returns when it falls through
+            body = body + '\n    ' + frag['tail']
         return '%s {\n    %s\n}' % (frag['sig'], body), {'scrutinee': scrut}
     if kind == 'closure':
         # closures start with '|' directly after '(' or ',' or '=' tokens
